@@ -177,8 +177,8 @@ func inlinePackage(p *packages.Package, newTypes map[string]*types.Package, leve
 			if !ok {
 				continue
 			}
-			if obj.Exported() {
-				continue // exported API functions are anchors of the properties (rules look for calls to them): never dissolved
+			if obj.Exported() || inlineKeep[p.Types.Name()+"."+obj.Name()] {
+				continue // exported API functions and the helpers the rules are anchored at by name (rules look for calls to them) stay functions
 			}
 			sig := obj.Type().(*types.Signature)
 			if sig.Variadic() {
@@ -336,7 +336,7 @@ func inlinePackage(p *packages.Package, newTypes map[string]*types.Package, leve
 	for _, f := range files {
 		rewriteExprs(f, func(e ast.Expr) ast.Expr {
 			call, ok := e.(*ast.CallExpr)
-			if !ok || len(call.Args) != 1 {
+			if !ok {
 				return nil
 			}
 			sel, ok := call.Fun.(*ast.SelectorExpr)
@@ -348,11 +348,37 @@ func inlinePackage(p *packages.Package, newTypes map[string]*types.Package, leve
 				return nil
 			}
 			pn, ok := info.Uses[pid].(*types.PkgName)
-			if !ok || pn.Imported().Path() != "math/bits" {
+			if !ok {
+				return nil
+			}
+			// io.ReadAtLeast(r, b, len(b)) is io.ReadFull(r, b) by definition (package io), b a plain variable
+			if pn.Imported().Path() == "io" && sel.Sel.Name == "ReadAtLeast" && len(call.Args) == 3 {
+				b, isId := call.Args[1].(*ast.Ident)
+				lc, isCall := call.Args[2].(*ast.CallExpr)
+				if isId && isCall && len(lc.Args) == 1 {
+					if f, ok := lc.Fun.(*ast.Ident); ok {
+						if bi, ok := info.Uses[f].(*types.Builtin); ok && bi.Name() == "len" {
+							if b2, ok := lc.Args[0].(*ast.Ident); ok && info.Uses[b2] != nil && info.Uses[b2] == info.Uses[b] {
+								if _, isVar := info.Uses[b].(*types.Var); isVar {
+									cp := *pid
+									checks = append(checks, check{&cp, "io", nil})
+									nInl++
+									return &ast.CallExpr{Fun: &ast.SelectorExpr{X: &cp, Sel: &ast.Ident{Name: "ReadFull", NamePos: sel.Sel.Pos()}}, Lparen: call.Lparen, Args: call.Args[:2], Rparen: call.Rparen}
+								}
+							}
+						}
+					}
+				}
+				return nil
+			}
+			if pn.Imported().Path() != "math/bits" {
 				return nil
 			}
 			width := map[string]string{"Len64": "64", "Len32": "32", "Len16": "16", "Len8": "8"}[sel.Sel.Name]
 			if width == "" {
+				return nil
+			}
+			if len(call.Args) != 1 {
 				return nil
 			}
 			cp := *pid
